@@ -357,4 +357,54 @@ theorem inv_step (v : Nat) (s : St) (e : Ev) (s' : St) (hi : Inv v s)
   | casHead f a b c ok => exact inv_casHead hi hs
   | casTail k a b c ok => exact inv_casTail hi hs
 
+theorem inv_of_run {v node0 : Nat} {es : List Ev} {s : St}
+    (h : (sys v node0).run es = some s) : Inv v s :=
+  Sys.inv_of_run (sys v node0) (Inv v) (inv_init v node0)
+    (fun s e s' hi hs => inv_step v s e s' hi hs) h
+
+/-! ### the ghost counters are functions of the trace (what the monitor counts) -/
+
+/-- a wait that returned, or a trywait that returned success -/
+def isSuccRet : Ev → Bool
+  | .retWait _ => true
+  | .retTry _ true => true
+  | _ => false
+
+def isCallPost : Ev → Bool
+  | .callPost _ => true
+  | _ => false
+
+theorem step_counts {s s' : St} {e : Ev} (hs : step s e = some s') :
+    s'.retOk = s.retOk + (if isSuccRet e = true then 1 else 0) ∧
+    s'.postsBegun = s.postsBegun + (if isCallPost e = true then 1 else 0) := by
+  cases e <;> simp only [step] at hs <;> (repeat' (split at hs)) <;> (try (simp at hs; done)) <;>
+    simp at hs <;> subst hs <;> simp_all [isSuccRet, isCallPost]
+
+theorem trace_counts {v node0 : Nat} {es : List Ev} {s : St}
+    (h : (sys v node0).run es = some s) :
+    s.retOk = es.countP isSuccRet ∧ s.postsBegun = es.countP isCallPost := by
+  refine Sys.hist_inv_of_run (sys v node0)
+    (fun s es => s.retOk = es.countP isSuccRet ∧ s.postsBegun = es.countP isCallPost)
+    (by simp [sys, init]) ?_ h
+  intro s es e s' hI hs
+  have hc := step_counts (s := s) (s' := s') (e := e) hs
+  obtain ⟨h1, h2⟩ := hI
+  simp only [List.countP_append, List.countP_cons, List.countP_nil]
+  omega
+
+/-- every prefix of an accepted trace is accepted -/
+theorem run_prefix {v node0 : Nat} {es fs : List Ev} {s : St}
+    (h : (sys v node0).run (es ++ fs) = some s) : ∃ s0, (sys v node0).run es = some s0 := by
+  simp only [Sys.run, Sys.runFrom_append] at h
+  cases h0 : (sys v node0).runFrom (sys v node0).init es with
+  | none => simp [h0] at h
+  | some s0 => exact ⟨s0, h0⟩
+
+/-- the fiber that performs an event (kernel-thread events of the deferred push: `none`) -/
+def Ev.fiber : Ev → Option Nat
+  | .callWait f | .retWait f | .callTry f | .retTry f _ | .callPost f | .retPost f => some f
+  | .fsub f _ | .fadd f _ | .ldCounter f _ | .casCounter f _ _ _ _ => some f
+  | .wWaiting _ f _ | .wReady f _ | .ldHead f _ | .casHead f _ _ _ _ => some f
+  | .ldTail _ _ | .casTail _ _ _ _ _ | .getValue _ | .final _ => none
+
 end LibfiberVerif.Sem
